@@ -5,6 +5,8 @@ pub mod conv;
 pub mod div;
 pub mod modpow;
 pub mod mul;
+#[cfg(feature = "rand")]
+pub mod rand_drv;
 pub mod numth;
 #[cfg(feature = "serde")]
 pub mod serde_drv;
@@ -21,6 +23,8 @@ pub fn run(name: &str, r: &mut Rec) -> bool {
         "conv" => conv::run(r),
         "div" => div::run(r),
         "mul" => mul::run(r),
+        #[cfg(feature = "rand")]
+        "rand" => rand_drv::run(r),
         "roots" => numth::run_roots(r),
         "pow" => numth::run_pow(r),
         "gcd" => numth::run_gcd(r),
